@@ -27,6 +27,11 @@ type scenario struct {
 	Seed       int64  `json:"seed"`
 	TruncDump  bool   `json:"trunc_dump"` // its dump is used for the crash-point enumeration
 	NoShort    bool   `json:"no_short"`   // no short-lived (TTL 1-2 s) Exec entries
+
+	Sizes  []sizeMix `json:"sizes,omitempty"`       // (f) Exec answers of chosen uncompressed sizes
+	Rounds int       `json:"rounds,omitempty"`      // (f) further dump -> reload rounds (each dump walks the cache in another order)
+	Client string    `json:"http_client,omitempty"` // (e) the dump is downloaded from a real HTTP server by this client model ...
+	Loader string    `json:"http_loader,omitempty"` // (e) ... and uploaded to a real server by this one
 }
 
 type scenState struct {
@@ -308,6 +313,39 @@ func buildScenario(sc scenario) *scenState {
 		}
 		st.specs = append(st.specs, s)
 	}
+
+	// ---- (f) answers of chosen uncompressed sizes, stored through Exec ----
+	idx := sc.NInject + sc.NExec
+	for _, mix := range sc.Sizes {
+		for k := 0; k < mix.N; k++ {
+			bytes := mix.Bytes
+			if mix.Spread && bytes > 2048 {
+				bytes = 2048 + rng.Intn(bytes-2048)
+			}
+			s, err := genSized(rng, idx, bytes, mix.Raw)
+			if err != nil {
+				rep.Inconclusive("%s: %v", sc.Name, err)
+				st.failed = true
+				return st
+			}
+			idx++
+			rep.Count("size_answers_stored", 1)
+			rep.Max("size_max_wire_bytes_of_a_stored_answer", int64(s.WireLen))
+			rep.Max("size_max_uncompressed_bytes_of_a_stored_answer", int64(s.PackedLen))
+			rep.SetAdd("size_stored_answer_classes", fmt.Sprintf("%s %s: %s uncompressed", s.Kind, kib(mix.Bytes), msgBucket(s.PackedLen)))
+			if mix.Raw {
+				rep.Count("size_incompressible_answers_stored", 1)
+			}
+			upc := s.Up.Copy()
+			s.U0 = time.Now()
+			r, err := st.A.exec(s.Q.msg(uint16(rng.Intn(65536))), upc)
+			s.U1 = time.Now()
+			if err != nil || r != upc {
+				rep.Count("fill_not_a_miss", 1)
+			}
+			st.specs = append(st.specs, s)
+		}
+	}
 	return st
 }
 
@@ -381,6 +419,7 @@ func compareScenario(st *scenState) {
 
 	// ---- D ----
 	var D []byte
+	how := "" // (e) how D travelled
 	tD0 := time.Now()
 	if sc.ViaFile {
 		A.close() // writes the dump file
@@ -402,19 +441,54 @@ func compareScenario(st *scenState) {
 		}
 	} else {
 		defer A.close()
-		code, b := A.dump()
-		if code != 200 {
-			rep.Violation("dump-failed", fmt.Sprintf("%s: GET /dump answered %d", sc.Name, code), rc)
-			return
+		if sc.Client != "" {
+			// (e) through a real server and a real client
+			srv, err := A.serve()
+			if err != nil {
+				rep.Inconclusive("%s: cannot serve the API: %v", sc.Name, err)
+				return
+			}
+			fr := fetchDump(srv, sc.Client)
+			srv.close()
+			if fr.HarnessError {
+				rep.Inconclusive("%s: client %s could not talk to the loopback server: %s", sc.Name, sc.Client, fr.Err)
+				return
+			}
+			how = "; " + describeFetch(fr)
+			if fr.Err != "" || fr.Status != 200 {
+				rep.Violation("dump-download-fails", fmt.Sprintf("%s: GET /plugins/%s/dump: %s; error: %s", sc.Name, apiTag, describeFetch(fr), fr.Err), rc)
+				return
+			}
+			D = fr.Saved
+			rep.Count("fidelity_dumps_downloaded_over_http", 1)
+		} else {
+			code, b := A.dump()
+			if code != 200 {
+				rep.Violation("dump-failed", fmt.Sprintf("%s: GET /dump answered %d", sc.Name, code), rc)
+				return
+			}
+			D = append([]byte(nil), b...)
 		}
-		D = append([]byte(nil), b...)
 	}
 	st.D = D
 	rep.Count("dump_bytes_total", int64(len(D)))
 	dd, err := decodeDump(D)
+	if err != nil && sc.Client != "" {
+		// what the client saved is not a dump for the independent reader: the verdict is the plugin's
+		B := newBox(sc.Lazy, "")
+		code, msg := B.load(D)
+		B.close()
+		if code != 200 {
+			rep.Violation("downloaded-dump-rejected", fmt.Sprintf("%s: the dump downloaded from GET /plugins/%s/dump is refused by /load_dump of an empty cache: %d %q%s", sc.Name, apiTag, code, msg, how), rc)
+			return
+		}
+	}
 	if err != nil {
-		rep.Violation("dump-undecodable", fmt.Sprintf("%s: the independent reader cannot decode the dump: %v", sc.Name, err), rc)
+		rep.Violation("dump-undecodable", fmt.Sprintf("%s: the independent reader cannot decode the dump: %v%s", sc.Name, err, how), rc)
 		return
+	}
+	if len(sc.Sizes) > 0 || sc.Rounds > 0 {
+		observeBlocks(sc.Name, dd)
 	}
 	rep.Count("dump_entries_decoded", int64(len(dd.Entries)))
 	rep.Count("dump_blocks_decoded", int64(len(dd.BlockSizes)))
@@ -524,14 +598,34 @@ func compareScenario(st *scenState) {
 	if sc.ViaFile {
 		B = newBox(sc.Lazy, st.file)
 		if errs := B.errorLogs(); len(errs) > 0 {
-			rep.Violation("intact-dump-rejected", fmt.Sprintf("%s: restart with the dump file written by Close() (%d bytes, %d entries, uncompressed blocks end at %v) logged: %v", sc.Name, len(D), len(dd.Entries), dd.BlockEnds, errs), rc)
+			rep.Violation(sizeKey("intact-dump-rejected", dd), fmt.Sprintf("%s: restart with the dump file written by Close() (%d bytes, %d entries, uncompressed blocks end at %v) logged: %v; %s", sc.Name, len(D), len(dd.Entries), dd.BlockEnds, errs, describeBlocks(dd)), rc)
 			B.close()
 			return
 		}
 	} else {
 		B = newBox(sc.Lazy, "")
-		if code, msg := B.load(D); code != 200 {
-			rep.Violation("intact-dump-rejected", fmt.Sprintf("%s: POST /load_dump of the cache's own dump (%d bytes, %d entries, uncompressed blocks end at %v) answered %d %q", sc.Name, len(D), len(dd.Entries), dd.BlockEnds, code, msg), rc)
+		if sc.Loader != "" {
+			srv, err := B.serve()
+			if err != nil {
+				rep.Inconclusive("%s: cannot serve the API: %v", sc.Name, err)
+				B.close()
+				return
+			}
+			pr := pushDump(srv, sc.Loader, D, sc.Seed)
+			srv.close()
+			if pr.HarnessError {
+				rep.Inconclusive("%s: loader %s could not talk to the loopback server: %s", sc.Name, sc.Loader, pr.Err)
+				B.close()
+				return
+			}
+			if pr.Err != "" || pr.Status != 200 {
+				rep.Violation("downloaded-dump-rejected", fmt.Sprintf("%s: POST /plugins/%s/load_dump (uploaded with %q) of the cache's own dump (%d bytes, %d entries) answered %d %q %s%s", sc.Name, apiTag, sc.Loader, len(D), len(dd.Entries), pr.Status, pr.Msg, pr.Err, how), rc)
+				B.close()
+				return
+			}
+			rep.Count("fidelity_dumps_uploaded_over_http", 1)
+		} else if code, msg := B.load(D); code != 200 {
+			rep.Violation(sizeKey("intact-dump-rejected", dd), fmt.Sprintf("%s: POST /load_dump of the cache's own dump (%d bytes, %d entries, uncompressed blocks end at %v) answered %d %q; %s", sc.Name, len(D), len(dd.Entries), dd.BlockEnds, code, msg, describeBlocks(dd)), rc)
 			B.close()
 			return
 		}
@@ -718,6 +812,20 @@ func compareScenario(st *scenState) {
 		if rep.WantSample() && (s.Idx%37 == 0 || s.Group == "odd") {
 			rep.Sample(obs)
 		}
+		if s.SizeClass > 0 {
+			rep.Count("size_answers_served_by_original_and_reloaded_cache", 1)
+			if s.PackedLen > 65535 {
+				rep.Count("size_answers_above_64KiB_served_by_original_and_reloaded_cache", 1)
+			}
+			if s.PackedLen >= 480<<10 {
+				rep.Count("size_answers_above_480KiB_served_by_original_and_reloaded_cache", 1)
+			}
+		}
+	}
+
+	// ---- (f) more rounds: every dump walks the cache in another order ----
+	if sc.Rounds > 0 && !sc.ViaFile {
+		sizeRounds(st, A, rc)
 	}
 }
 
@@ -743,9 +851,16 @@ func scenarios(seed int64, thorough bool) []scenario {
 			scenario{Name: "inject-tiny-blocks", NInject: 300, BlockSizes: []int{1}},
 		)
 	}
+	// (e) one mixed cache whose dump travels over real HTTP in both directions, judged question by question
+	sc = append(sc,
+		scenario{Name: "mixed-lazy-200-over-http-default-client", Lazy: 3600, NExec: 100, NInject: 100, BlockSizes: []int{128}, Client: "go-default-transport", Loader: "post-chunked"},
+		scenario{Name: "mixed-nolazy-120-over-http-decoding-client", NExec: 60, NInject: 60, BlockSizes: []int{50}, Client: "accept-gzip-and-decode", Loader: "post-raw-chunks-of-arbitrary-sizes"},
+	)
 	for i := range sc {
 		sc[i].Seed = seed*1000003 + int64(i)*7919 + 17
 	}
+	// (f) entry size classes
+	sc = append(sc, sizeScenarios(seed, thorough)...)
 	return sc
 }
 
